@@ -325,6 +325,10 @@ def ExcK.toError : ExcK → Option (Uri × Args × Kwargs)
   | .cancelled => some (uRuntimeError, [], [])
   | .sendExc => some (uRuntimeError, [], [])
 
+/-- the ERROR the `error` closure answers with: what `_message_from_exception` builds, or — when building it raises —
+`ERROR(wamp.error.invalid_payload)` with a text only -/
+def ExcK.errorReply (e : ExcK) : Uri × Args × Kwargs := e.toError.getD (uInvalidPayload, [], [])
+
 /-! ### API calls (the vocabulary; semantics below) -/
 
 inductive Api
@@ -453,6 +457,7 @@ structure Sess where
   transport : Bool := false           -- `self._transport is not None`
   sessionId : Option Nat := none
   goodbyeSent : Bool := false
+  ended : Bool := false               -- `self._session_ended`: `onLeave` has been called since the last `join()` / `onOpen`
   nextId : Nat := idInit              -- `IdGenerator._next`
   issued : Nat := 0                   -- ghost: ids drawn from this session object so far
   tPublish : Table := []
@@ -666,7 +671,7 @@ def apiCancel (s : Sess) (f : FutId) : Sess × List SOut :=
 def apiJoin (s : Sess) : Sess × List SOut :=
   if s.sessionId.isSome then (s, [.raise_ .exception]) else        -- "session already joined"
   if !s.transport then (s, [.raise_ .exception]) else              -- "no transport set for session"
-  ({ s with goodbyeSent := false }, [.send { typ := .hello }])
+  ({ s with goodbyeSent := false, ended := false }, [.send { typ := .hello }])
 
 /-- `leave()` -/
 def apiLeave (s : Sess) : Sess × List SOut :=
@@ -870,12 +875,11 @@ def invDone (s : Sess) (req : ReqId) (o : EOut) : Sess × List SOut :=
       if !s.transport then (s, [])           -- "Skipping result … because transport disconnected"
       else sendWithFallback s req { typ := .yield_, req := req, args := a, kwargs := k }
     | .raised e =>
-      match e.toError with
-      | none => (s, [.userError, .lost .assertionError])
-      | some (u, a, k) =>
-        if !s.transport then (s, [.userError, .lost .attributeError]) else
-        let r := sendWithFallback s req { typ := .error, req := req, uri := u, args := a, kwargs := k }
-        (r.1, .userError :: r.2)
+      -- `_message_from_exception` raising is caught: ERROR(wamp.error.invalid_payload) without the exception's payload
+      if !s.transport then (s, [.userError, .lost .attributeError]) else
+      let r := sendWithFallback s req
+        { typ := .error, req := req, uri := e.errorReply.1, args := e.errorReply.2.1, kwargs := e.errorReply.2.2 }
+      (r.1, .userError :: r.2)
 
 /-- `details.progress(v)` -/
 def progressSend (s : Sess) (req : ReqId) (v : Val) : Sess × List SOut × SendOut :=
@@ -898,10 +902,10 @@ def retOut : Ret → EOut
   | .callResult a k => .value a k
   | .pending => .value [noneVal] []
 
-/-- the CHALLENGE `error` closure: onUserError, ABORT, `onLeave`, 'leave' -/
+/-- the CHALLENGE `error` closure: onUserError, ABORT, the join attempt is over, `onLeave`, 'leave' -/
 def challengeFail (s : Sess) (lact : HAct) : Sess × List SOut :=
   if !s.transport then (s, [.userError, .lost .attributeError]) else
-  let r := leaveHook s 3 lact
+  let r := leaveHook { s with ended := true } 3 lact
   (r.1, [.userError, .send { typ := .abort }] ++ r.2)
 
 def runCont (s : Sess) : Cont → Sess × List SOut
@@ -946,7 +950,7 @@ def settleInv (s : Sess) (req : ReqId) (o : EOut) : Sess × List SOut :=
 
 /-- `onOpen(transport)`; `acts = [onConnect]` -/
 def onOpen (s : Sess) (acts : List HAct) : Sess × List SOut :=
-  let r := defer { s with transport := true } (.connect (acts.headD {}))
+  let r := defer { s with transport := true, ended := false } (.connect (acts.headD {}))
   (r.1, .fire .connect :: r.2)
 
 /-- the value a final RESULT resolves the call with -/
@@ -1007,7 +1011,7 @@ def onEstablished (s : Sess) (beh : List HAct) : InMsg → Sess × List SOut
     -- the session is over; `onLeave`, then 'leave'
     if !s.goodbyeSent && !s.transport then (s, [.raise_ .attributeError]) else
     let out := if s.goodbyeSent then [] else [SOut.send { typ := .goodbye }]
-    let r := leaveHook { s with sessionId := none } 0 (beh.headD {})
+    let r := leaveHook { s with sessionId := none, ended := true } 0 (beh.headD {})
     (r.1, out ++ r.2)
   | .event sub _ p =>
     match alookup sub s.subs with
@@ -1073,16 +1077,18 @@ def onEstablished (s : Sess) (beh : List HAct) : InMsg → Sess × List SOut
     settleInv s req (.raised .cancelled)
   | .welcome _ | .abort | .challenge | .other => (s, [.raise_ .protocolError])
 
-/-- the branch `if self._session_id is None`: "the first message must be WELCOME, ABORT or CHALLENGE" — nothing
-records that one of them has already been handled. `beh` = `[onWelcome, onJoin]` / `[onLeave]` / `[onChallenge, onLeave]` -/
-def preSession (s : Sess) (beh : List HAct) : InMsg → Sess × List SOut
+/-- the branch `if self._session_id is None`: "the first message must be WELCOME, ABORT or CHALLENGE" — unless the
+session (or the attempt to join) of this connection is already over (`_session_ended`: `onLeave` has been called and
+`join()` was not called again): then every message is a protocol violation.
+`beh` = `[onWelcome, onJoin]` / `[onLeave]` / `[onChallenge, onLeave]` -/
+def preSessionOpen (s : Sess) (beh : List HAct) : InMsg → Sess × List SOut
   | .welcome sid =>
     let a := beh.headD {}
     let r1 := runHook s .onWelcome 0 a (fun s => (s, []))
     let res : WRes := if a.raises then .raised else if a.ret = .unit then .ok else .deny
     let r2 := defer r1.1 (.welcome1 sid res (beh.tail.headD {}))
     (r2.1, r1.2 ++ r2.2)
-  | .abort => leaveHook s 2 (beh.headD {})
+  | .abort => leaveHook { s with ended := true } 2 (beh.headD {})
   | .challenge =>
     let a := beh.headD {}
     let r1 := runHook s .onChallenge 0 a (fun s => (s, []))
@@ -1090,6 +1096,9 @@ def preSession (s : Sess) (beh : List HAct) : InMsg → Sess × List SOut
     let r2 := defer r1.1 (.challenge1 res (beh.tail.headD {}))
     (r2.1, r1.2 ++ r2.2)
   | _ => (s, [.raise_ .protocolError])
+
+def preSession (s : Sess) (beh : List HAct) (m : InMsg) : Sess × List SOut :=
+  if s.ended then (s, [.raise_ .protocolError]) else preSessionOpen s beh m
 
 def onMessage (s : Sess) (m : InMsg) (beh : List HAct) : Sess × List SOut :=
   match s.sessionId with
